@@ -216,6 +216,7 @@ def pLine : P Verdict := do
   P.kw "long"; let _ ← P.nat
   P.kw "quiet"; let _ ← P.nat
   P.kw "groups"; let _ ← P.nat
+  P.kw "stall"; let _ ← P.nat
   P.kw "OUT"
   match (← P.peek) with
   | some "PANIC" => return .diff "the real code panicked during the run (not a verdict on races; see the case)"
